@@ -37,7 +37,9 @@ func c12Gen(r *rand.Rand, tier string) []spec.Case {
 		add(spec.C12Case{Proto: "grpc", Path: "plugin-brokered", Launch: "runner-translate"})
 		add(spec.C12Case{Proto: "grpc", Path: "host-brokered", Launch: "runner-translate"})
 		for _, pr := range []string{"netrpc", "grpc"} {
-			add(spec.C12Case{Proto: pr, Path: "relaunch-impostor", Launch: "cmd"})
+			// (a host process of its own: whatever one launch leaves behind in process-wide state, e.g. cached TLS
+			// sessions, is not disturbed by other cases' connections before the second launch)
+			out = append(out, spec.Case{Kind: "solo:" + pr + "/relaunch-impostor", P: spec.MustJSON(spec.C12Case{Proto: pr, Path: "relaunch-impostor", Launch: "cmd"})})
 		}
 		// the plugin side of AutoMTLS on its own: started directly with PLUGIN_CLIENT_CERT in unusual shapes
 		for _, pr := range []string{"netrpc", "grpc"} {
